@@ -10,6 +10,7 @@ import ReuseVerif.Spec.Lint
 import ReuseVerif.Theorems.C06
 import ReuseVerif.Theorems.C01
 import ReuseVerif.Lemmas.SpdxE2E
+import ReuseVerif.Lemmas.C13Functional
 
 namespace C13
 open Py Spec Model
@@ -99,6 +100,86 @@ theorem C13_lint_file_only_covered (tbl : LicenseMap) (pr : Project) (F F' : Lis
     have := h f hf
     by_cases h1 : f.path ∈ F <;> simp_all
   simp only [lintFile, subsetReport, List.contains_eq_mem, this]
+
+/-- **The formats are functions of the story the report tells.**  The model of the formatters is
+    "up to wording": a format is its list of (category, item) entries.  If two reports have the same
+    eight collections *as sets* and attach every licence identifier to the same path
+    (`SameStory`; order and repetitions inside the report's lists may differ), then each of the
+    four invocations ends with the same exit status and names the same set of (category, item)
+    pairs — also in the raw sections of the plain format (`both` / `copyright only` / `licence
+    only`). -/
+theorem C13_formats_functional (r r' : Report) (h : SameStory r r') (f : Format) :
+    (lintCmd f r).2 = (lintCmd f r').2 ∧ ∀ x, x ∈ (lintCmd f r).1 ↔ x ∈ (lintCmd f r').1 := by
+  have s := sameSets_of_story h
+  have hc := compliant_of_sameSets s
+  refine ⟨by simp [lintCmd, Report.exit, hc], ?_⟩
+  rintro ⟨c, a, b⟩
+  cases f with
+  | json =>
+    simp only [lintCmd]
+    rw [C13_json, C13_json]; exact h.1 c a b
+  | quiet => simp [lintCmd, fmtQuiet]
+  | lines =>
+    simp only [lintCmd]
+    cases hcr : r.isCompliant with
+    | true =>
+      rw [(C13_compliant_silent r hcr).2.1, (C13_compliant_silent r' (hc ▸ hcr)).2.1]
+    | false =>
+      rw [C13_lines r hcr, C13_lines r' (hc ▸ hcr)]
+      cases c <;> simp [ReportedLines, Reported, s.missing, s.bad, s.noExt, s.unused, s.deprecated,
+        s.readErrors, s.noCopyright, s.noLicence, h.2]
+  | plain =>
+    simp only [lintCmd]
+    cases hcr : r.isCompliant with
+    | true =>
+      rw [(C13_compliant_silent r hcr).1, (C13_compliant_silent r' (hc ▸ hcr)).1]
+    | false =>
+      have hcr' : r'.isCompliant = false := hc ▸ hcr
+      simp only [fmtPlain, hcr, hcr', Bool.false_eq_true, if_false]
+      cases c <;> simp [one, two, List.mem_filter, s.missing, s.bad, s.noExt, s.unused, s.deprecated,
+        s.readErrors, s.noCopyright, s.noLicence]
+
+/-- the same for `lint-file`'s output format (`format_lines_subset`) -/
+theorem C13_subset_functional (r r' : Report) (h : SameStory r r') :
+    (∀ x, x ∈ fmtSubset r ↔ x ∈ fmtSubset r') ∧ subsetCompliant r = subsetCompliant r' := by
+  have s := sameSets_of_story h
+  constructor
+  · rintro ⟨c, a, b⟩
+    rw [mem_fmtSubset, mem_fmtSubset]
+    simp only [s.missing, s.readErrors, s.noLicence, s.noCopyright]
+  · rw [Bool.eq_iff_iff, ← fmtSubset_nil, ← fmtSubset_nil]
+    have hm : ∀ x, x ∈ fmtSubset r ↔ x ∈ fmtSubset r' := by
+      rintro ⟨c, a, b⟩
+      rw [mem_fmtSubset, mem_fmtSubset]
+      simp only [s.missing, s.readErrors, s.noLicence, s.noCopyright]
+    exact nil_iff_of_mem hm
+
+/-- **`lint-file` is monotone in F**: naming more files can only add lines (and can only turn the
+    exit status from 0 to 1), for one project state. -/
+theorem C13_lint_file_mono (tbl : LicenseMap) (pr : Project) (F F' : List Text) (hsub : ∀ p ∈ F, p ∈ F')
+    (out out' : List Entry) (e e' : Nat)
+    (hl : lintFile tbl pr F = some (out, e)) (hl' : lintFile tbl pr F' = some (out', e')) :
+    (∀ x ∈ out, x ∈ out') ∧ e ≤ e' := by
+  obtain ⟨fd, hf⟩ : ∃ fd, findLicenses tbl pr.licFiles = some fd := by
+    cases hfd : findLicenses tbl pr.licFiles with
+    | none => simp [lintFile, hfd] at hl
+    | some fd => exact ⟨fd, rfl⟩
+  have hr : generate tbl pr = some (generateOn fd pr.files) := by simp [generate, hf]
+  obtain ⟨h1, _, h3, h4⟩ := C13_lint_file tbl pr F _ out e hr hl
+  obtain ⟨h1', _, h3', h4'⟩ := C13_lint_file tbl pr F' _ out' e' hr hl'
+  have hmono : ∀ x ∈ out, x ∈ out' := fun x hx => by
+    obtain ⟨hs, hp⟩ := (h1 x).mp hx
+    exact (h1' x).mpr ⟨hs, hsub _ hp⟩
+  refine ⟨hmono, ?_⟩
+  by_cases ho : out = []
+  · rw [h4.mpr ho]; exact Nat.zero_le _
+  · have ho' : out' ≠ [] := by
+      obtain ⟨x, xs, rfl⟩ := List.exists_cons_of_ne_nil ho
+      intro e0
+      have := hmono x List.mem_cons_self
+      rw [e0] at this; cases this
+    rw [h3.mpr ho, h3'.mpr ho']
+    exact Nat.le_refl _
 
 /-! ## The composed model: `reuse lint-file` and the formats of `reuse lint` from the tree
 
